@@ -213,6 +213,11 @@ Theorems(x) ==
         det |-> W = R,
         \* the reversed log is a behaviour the documented order allows
         rev |-> Matches(NProg(x.prog), A, nb, x.env, rev),
+        \* the normal form used to compare logs identifies the two orders
+        \* and leaves the mechanism's own (ascending) log unchanged
+        norm |-> /\ NormLog(rev, DestOf(NProg(x.prog))) = NormLog(log, DestOf(NProg(x.prog)))
+                 /\ NormLog(log, DestOf(NProg(x.prog))) = log
+                 /\ OrderDiff(NProg(x.prog), rev, log) = 0,
         inrange |-> ~W.bad,
         \* frame: properties no statement targets (all base properties) are unchanged
         frame |-> \A a \in 0..1 :
@@ -235,6 +240,7 @@ Spec == Init /\ [][Next]_vars
 
 Deterministic == chk.done => chk.det
 RevAllowed == chk.done => chk.rev
+NormalForm == chk.done => chk.norm
 InRange == chk.done => chk.inrange
 Frame == chk.done => chk.frame
 WF == chk.done => chk.wf
